@@ -89,44 +89,45 @@ def run(chk: Check, repo: Repo) -> None:
     cfg2 = CFG(sd.node)
     t0 = sd.node.args.args[1].arg
     tr_obj = Obj("DPTClass", "configured")
-    for label, existing, payload_cls, configured, outcome in (
-        ("fresh write, configured, decodes", None, "GroupValueWrite", True, "ok"),
-        ("fresh write, configured, decode error", None, "GroupValueWrite", True, "err"),
-        ("fresh response, configured", None, "GroupValueResponse", True, "ok"),
-        ("already decoded", Obj("TelegramDecodedData", "old"), "GroupValueWrite", True, "ok"),
-        ("read request", None, "GroupValueRead", True, "ok"),
-        ("not configured", None, "GroupValueWrite", False, "ok"),
-    ):
-        def cm2(c: ast.Call, env):
-            n = call_name(c)
-            if n == "self.get":
-                return [Outcome(None, tr_obj if configured else None)]
-            if n == "transcoder.from_knx":
-                arg = ast.unparse(c.args[0]) if c.args else ""
-                return [Outcome(f"DECODE({arg})", Obj("Value", "v"))] if outcome == "ok" else [Outcome(f"DECODE({arg})", Raise("ConversionError"))]
-            if n == "TelegramDecodedData":
-                am_ = box["am"]
-                return [Outcome(None, Obj("TelegramDecodedData", "new", tuple((f"arg{i}", am_.ev(a, env, {})) for i, a in enumerate(c.args)) + tuple((k.arg, am_.ev(k.value, env, {})) for k in c.keywords)))]
-            if n.startswith("_GA_DPT_LOGGER") or n == "_logger_fn" or n.endswith(".add") or n.endswith("dpt_name"):
-                return [Outcome(None, None)]
-            return None
-        box = {}
-        am2 = AbsMachine(cfg2, exc, cm2)
-        am2.isinstance_fn = class_isinstance(repo)
-        box["am"] = am2
-        env = {f"{t0}.decoded_data": existing, f"{t0}.payload": Obj(payload_cls, "p"), f"{t0}.destination_address": Obj("GroupAddress", "ga"), "self.ga_decoding_error": ()}
-        paths = Explorer(cfg2, repo, am2.step).run(cfg2.entry, [], env)
-        finals = {(repr(p.env.get(f"{t0}.decoded_data")), tuple(t for t in p.env.get("trace", ()) if t.startswith("DECODE")), p.end_kind) for p in paths}
-        stores = {repr(dict(p.env.get(f"{t0}.decoded_data").fields)) for p in paths if isinstance(p.env.get(f"{t0}.decoded_data"), Obj) and p.env.get(f"{t0}.decoded_data").tag == "new"}
-        if existing is not None:
-            ok = finals == {(repr(existing), (), "exit")}
-        elif payload_cls == "GroupValueRead" or not configured:
-            ok = finals == {("None", (), "exit")}
-        elif outcome == "err":
-            ok = all(f[0] == "None" and f[2] == "exit" for f in finals) and len(finals) == 1
-        else:
-            ok = len(finals) == 1 and all(f[1] == (f"DECODE({t0}.payload.value)",) and f[2] == "exit" for f in finals) and stores == {repr({"arg0": tr_obj, "arg1": Obj("Value", "v")})} or stores == {repr({"transcoder": tr_obj, "value": Obj("Value", "v")})}
-        chk.ob("eager-decode-store", sd.site(), ok, f"{label}: final (decoded_data, decodes, end) = {sorted(finals)}; stored {sorted(stores)}", key=f"store|{label}")
+    for dest_cls in ("GroupAddress", "InternalGroupAddress"):
+      for label, existing, payload_cls, configured, outcome in (
+          ("fresh write, configured, decodes", None, "GroupValueWrite", True, "ok"),
+          ("fresh write, configured, decode error", None, "GroupValueWrite", True, "err"),
+          ("fresh response, configured", None, "GroupValueResponse", True, "ok"),
+          ("already decoded", Obj("TelegramDecodedData", "old"), "GroupValueWrite", True, "ok"),
+          ("read request", None, "GroupValueRead", True, "ok"),
+          ("not configured", None, "GroupValueWrite", False, "ok"),
+      ):
+          def cm2(c: ast.Call, env):
+              n = call_name(c)
+              if n == "self.get":
+                  return [Outcome(None, tr_obj if configured else None)]
+              if n == "transcoder.from_knx":
+                  arg = ast.unparse(c.args[0]) if c.args else ""
+                  return [Outcome(f"DECODE({arg})", Obj("Value", "v"))] if outcome == "ok" else [Outcome(f"DECODE({arg})", Raise("ConversionError"))]
+              if n == "TelegramDecodedData":
+                  am_ = box["am"]
+                  return [Outcome(None, Obj("TelegramDecodedData", "new", tuple((f"arg{i}", am_.ev(a, env, {})) for i, a in enumerate(c.args)) + tuple((k.arg, am_.ev(k.value, env, {})) for k in c.keywords)))]
+              if n.startswith("_GA_DPT_LOGGER") or n == "_logger_fn" or n.endswith(".add") or n.endswith("dpt_name"):
+                  return [Outcome(None, None)]
+              return None
+          box = {}
+          am2 = AbsMachine(cfg2, exc, cm2)
+          am2.isinstance_fn = class_isinstance(repo)
+          box["am"] = am2
+          env = {f"{t0}.decoded_data": existing, f"{t0}.payload": Obj(payload_cls, "p"), f"{t0}.destination_address": Obj(dest_cls, "ga"), "self.ga_decoding_error": ()}
+          paths = Explorer(cfg2, repo, am2.step).run(cfg2.entry, [], env)
+          finals = {(repr(p.env.get(f"{t0}.decoded_data")), tuple(t for t in p.env.get("trace", ()) if t.startswith("DECODE")), p.end_kind) for p in paths}
+          stores = {repr(dict(p.env.get(f"{t0}.decoded_data").fields)) for p in paths if isinstance(p.env.get(f"{t0}.decoded_data"), Obj) and p.env.get(f"{t0}.decoded_data").tag == "new"}
+          if existing is not None:
+              ok = finals == {(repr(existing), (), "exit")}
+          elif payload_cls == "GroupValueRead" or not configured:
+              ok = finals == {("None", (), "exit")}
+          elif outcome == "err":
+              ok = all(f[0] == "None" and f[2] == "exit" for f in finals) and len(finals) == 1
+          else:
+              ok = len(finals) == 1 and all(f[1] == (f"DECODE({t0}.payload.value)",) and f[2] == "exit" for f in finals) and stores == {repr({"arg0": tr_obj, "arg1": Obj("Value", "v")})} or stores == {repr({"transcoder": tr_obj, "value": Obj("Value", "v")})}
+          chk.ob("eager-decode-store", sd.site(), ok, f"dest={dest_cls} {label}: final (decoded_data, decodes, end) = {sorted(finals)}; stored {sorted(stores)}", key=f"store|{dest_cls}|{label}")
     # dataclass field order of TelegramDecodedData: (transcoder, value)
     tdd = repo.cls("xknx.telegram.telegram", "TelegramDecodedData")
     chk.ob("decoded-data-fields", sd.site(), list(tdd.annotations)[:2] == ["transcoder", "value"], f"TelegramDecodedData fields {list(tdd.annotations)}", key="decoded-data-fields")
